@@ -10,7 +10,7 @@ PROPERTY = {
     'id': 'C04',
     'technique': 'CrossHair symbolic execution of the real merge code (ComposedNode/ConfigList.on_merge_impl, filter_nodes, _replace_*) on documents parsed by the real loader with symbolic delete/priority flags; oracle from the property statement executed on the same symbolic values; z3 decides every path',
     'assumptions': [
-        'metadata codec stub for !metadata:sK sites (native replays use the real pickle codec)',
+        'metadata codec stub for !metadata:<token> sites (native replays use the real pickle codec)',
         'leaf values are distinct concrete markers',
         'the oracle (engine/refmodel.py) is validated against the maintainers\' dict/ and list/ fixtures (###EXPECTED) on every run',
     ],
